@@ -83,6 +83,7 @@ func funcDecl(pk *packages.Package, name string, recv string) *ast.FuncDecl {
 
 func runC17(c *eng.Ctx) {
 	p := c.P
+	exprDecoderOnlyFailsOnDecoding(c)
 	pk := p.Package("sql/stmt")
 	if pk == nil {
 		c.Rule("ENGINE", "load", func() { c.Undecided("package sql/stmt not loaded") })
